@@ -40,4 +40,16 @@ CLAIMED = {
     'C17': ('lockstep effects between OUTPOINT_TO_UTXO_ENTRY and SCRIPT_PUBKEY_TO_OUTPOINT writes (edge-based path search modulo the index_addresses guard) + key/value provenance',
             'static rule check: every UTXO-table insert/remove is paired with the address-index insert/remove for the script parsed from that same entry and the same outpoint, on every path',
             'exactness over histories not decided', '§5 C17'),
+    'C05': ('lockstep of the three lookup-table inserts + pure-copy provenance of keys/values/entry fields + single-increment and read-before-write ordering of counters + Statistic read/write-back agreement + comparison atom for the jubilee',
+            'static rule check: the New arm writes entry/id/number tables together from the same triple; each counter has one += 1 with the handed-out value read first; counters are read from and written back to the same Statistic; number sign is decided by the cursed flag = is_some && !(height >= jubilee)',
+            'density over histories not decided', '§5 C05'),
+    'C07': ('taint-style rule: source Inscription::parents(), sanitizer Vec::retain(seen.insert && potential_parents.contains) dominating every sink call, sinks owned by update_inscription_location; lockstep of children/parents views',
+            'static rule check: envelope-declared parents cannot reach the children table or entry.parents without the membership-and-dedup filter, the filter set is exactly the transaction\'s floating inscription ids, both views and the latest-child tables are written in lockstep',
+            'sequence-number ordering over histories not decided', '§5 C07'),
+    'C08': ('must-consume path rule over the unallocated/allocated/burned maps + type discipline (no primitive u128 arithmetic; Lot operators call checked_*) + guard polarity on is_op_return/is_empty',
+            'static rule check: every success path of index_runes moves each carried balance into allocated, burned or the balance table; no path drops a map; amounts are combined only through checked Lot arithmetic; OP_RETURN outputs never receive a balance entry',
+            'the conservation equation itself is not decided', '§5 C08'),
+    'C37': ('pairing (lockstep modulo the event_sender guard, forwards or backwards) between each state change and its Event emission + same-loop-element provenance of event fields + error discipline on blocking_send',
+            'static rule check: each of the six event kinds is emitted on every path that performs the corresponding state change, with fields copied from the same values, and send errors abort indexing',
+            'replay equivalence is a value statement and is not decided', '§5 C37'),
 }
